@@ -6,6 +6,7 @@ import (
 	"encoding/json"
 	"errors"
 	"fmt"
+	"sort"
 	"text/template"
 
 	"package-operator.run/internal/apis/manifests"
@@ -24,9 +25,22 @@ func RenderTemplates(_ context.Context, pkg *packagetypes.Package, tmplCtx packa
 		return err
 	}
 
+	// Templates only ever see the files as they were packaged: getFile/getFileGlob read this snapshot,
+	// never the output of another template. Together with the sorted iteration below this makes the
+	// result independent of Go's map iteration order.
+	sourceFiles := make(map[string][]byte, len(pkg.Files))
+	templatePaths := make([]string, 0, len(pkg.Files))
+	for path, content := range pkg.Files {
+		sourceFiles[path] = content
+		if packagetypes.IsTemplateFile(path) {
+			templatePaths = append(templatePaths, path)
+		}
+	}
+	sort.Strings(templatePaths)
+
 	templ := template.New("pkg").Option("missingkey=error")
 	templ = templ.Funcs(transform.SprigFuncs(templ)).
-		Funcs(transform.FileFuncs(pkg.Files))
+		Funcs(transform.FileFuncs(sourceFiles))
 
 	celFn, err := celTemplateFunction(pkg.Manifest.Spec.Filters.Conditions, tmplCtx)
 	if err != nil {
@@ -35,24 +49,16 @@ func RenderTemplates(_ context.Context, pkg *packagetypes.Package, tmplCtx packa
 	templ = templ.Funcs(celFn)
 
 	// gather all templates to allow cross-file declarations and reuse of helpers.
-	for path, content := range pkg.Files {
-		if !packagetypes.IsTemplateFile(path) {
-			// Not a template file, skip.
-			continue
-		}
-
-		_, err := templ.New(path).Parse(string(content))
+	for _, path := range templatePaths {
+		_, err := templ.New(path).Parse(string(sourceFiles[path]))
 		if err != nil {
 			return fmt.Errorf("parsing template from %s: %w", path, err)
 		}
 	}
 
-	for path := range pkg.Files {
-		if !packagetypes.IsTemplateFile(path) {
-			// Not a template file, skip.
-			continue
-		}
-
+	// Only the templates that were packaged are executed; outputs are written back after the
+	// path list has been fixed, so an output that is itself named *.gotmpl is never picked up.
+	for _, path := range templatePaths {
 		var buf bytes.Buffer
 		if err := templ.ExecuteTemplate(&buf, path, tctx); err != nil {
 			return fmt.Errorf("executing template from %s with context %+v: %w", path, tctx, err)
